@@ -120,6 +120,7 @@ static struct { const char *name; opfn fn; int forked; } OPS[] = {
     {"OPENM", op_openm, 1},
     {"OPENRETRY", op_openretry, 1},
     {"PINSWAP", op_pinswap, 1},
+    {"OPENRESET", op_openreset, 1},
     {"READSEQ", op_readseq, 1},
     {"SCAN", op_scan, 1},
     {"CHUNKSEQ", op_chunkseq, 1},
